@@ -9,7 +9,7 @@ Binding: (i)   Compile-call histories emitted by TLC, replayed, judged by C04_Ju
 """
 import copy, json, os
 from concurrent.futures import ThreadPoolExecutor
-from lib import driver as D, machine as M
+from lib import driver as D, machine as M, nodetrace as NT
 
 MUTANTS = ["sharedTable", "nodeCache", "clockPerCall", "tzFromProcess",
            "expMutatesBase", "registerOverwrites", "sharedEnv", "firstErrorOnly"]
@@ -242,6 +242,8 @@ def run(ctx):
         by_id["repeat/" + o["id"]] = {"src": o["src"], "out": o["out"], "mut": o["mut"]}
     allv = allv + rverdicts
     ctx.extra["machine_programs_repeated"] = len(mobs)
+    # node-level trace validation (spec/FPNodeTrace.tla): every node of one evaluation sees the same instant
+    allv = NT.extend(ctx, allv, by_id, reruns=[(binary, ["time", ctx.path("time.cases"), ctx.path("time_traced.obs")])])
     return D.finish(
         ctx, allv, by_id, evaluations=evaluations,
         rule="histories: every Compile-call history of length 1 (quick) / <= 2 (thorough) over option lists of length <= 2 of "
